@@ -15,6 +15,8 @@
 (*                      deletes the index entry only while it still names this mapping)         *)
 (*     UpdateMapping   Get(mapping:<id>) -> Set(mapping:<id>, json')                            *)
 (*     LookupByDomain  Get(index:<name>) -> Get(mapping:<id>)                                   *)
+(*     GetMappingsByClientID (List)  GetList(client:<c>) -> Get(mapping:<id>) for every listed  *)
+(*                     id, RemoveFromList(client:<c>, id) for ids whose record is gone          *)
 (*   internal/command/handler_http_domain_create.go + app/server/http_domain_repository_adapter *)
 (*     (p in HandlerProcs)  Exists(index:<name>) -> CreateMapping -> UpdateMapping (expiry)     *)
 (*   internal/httpservice/modules/domainproxy/mapping_lookup.go  lookupMapping                  *)
@@ -41,6 +43,8 @@
 (*                  removes the claim marker of the delete that holds it                          *)
 (*   lookupWrites   ("lazyClean" in Deviate)  LookupByDomain deletes an index entry whose record  *)
 (*                  it does not find - e.g. the entry a running CreateMapping has just claimed    *)
+(*   listWrites     ("listHeals" in Deviate)  GetMappingsByClientID re-creates a missing index entry  *)
+(*                  (SetNX) for the records it lists - e.g. the entry a delete has just released  *)
 (*   doubleRegister ("splitRegister" in Deviate)  DomainRegistry.Register / the management create *)
 (*                  check "name free?" and insert in two critical sections: two parallel legacy   *)
 (*                  claims of one name are both acknowledged (no storage gate lies between the    *)
@@ -65,6 +69,9 @@ CONSTANTS ProcsC1, ProcsC2,  \* API-call processes acting with the proven identi
           OnlyDelete,        \* processes that only issue Delete calls / only Create calls ({} = no restriction);
           OnlyCreate,        \*   used by the three-deleters-one-claimant configuration
           Deviate,           \* named deviations of the code that are switched on (see below); {} = the code as it is
+          OnlyList,          \* processes that only issue List calls (GetMappingsByClientID)
+          CreateFaults,      \* TRUE: the one failing storage operation may also be the pre-check, the id counter, the index
+                             \*       SetNX (an ERROR, not "taken") or the handler's expiry update of a create
           DelFaults,         \* TRUE: the one failing storage operation may be ANY operation of the repaired DeleteMapping
                              \*       (reads, the claim, the list removal, the release), not only its two deletes
           Emit
@@ -93,7 +100,7 @@ Ids == 1..MaxId
 NoRec == [c |-> "-", n |-> "-", k |-> "-", st |-> "none"]
 Has(r) == r.st # "none"
 NoLeg == [id |-> 0, c |-> "-"]
-NoCur == [op |-> "none", n |-> "-", k |-> "-", fb |-> "-", id |-> 0, st |-> "-", res |-> "-"]
+NoCur == [op |-> "none", n |-> "-", k |-> "-", fb |-> "-", id |-> 0, st |-> "-", res |-> "-", ids |-> {}]
 
 \* Host spellings (finite table) and the normalisation the code implements:
 \*   extractDomain / DomainRegistry.LookupByHost cut the host at its LAST colon and change nothing else;
@@ -154,22 +161,28 @@ Call(p, c, first) ==
   /\ UNCHANGED <<okc, failc, deld, delok, inact, meta, bad, dev>>
 
 CallCreate(p, n, sp) ==
-  /\ p \in CProcs \ OnlyDelete /\ done[p] < MaxOps /\ "Create" \in Kinds /\ sp \in Spell \cap {"plain", "upper"}
+  /\ p \in CProcs \ (OnlyDelete \cup OnlyList) /\ done[p] < MaxOps /\ "Create" \in Kinds /\ sp \in Spell \cap {"plain", "upper"}
   /\ Call(p, [NoCur EXCEPT !.op = "Create", !.n = n, !.k = KeyOf(sp, n), !.st = "active"], IF p \in HandlerProcs THEN "C_pre" ELSE "C_id")
   /\ snap' = snap
   /\ Log(CallSt(p, "Call", "Create", Cl(p), n, 0, "-", sp))
 
 CallDelete(p, i) ==
-  /\ p \in CProcs \ OnlyCreate /\ done[p] < MaxOps /\ "Delete" \in Kinds /\ i \in Known
+  /\ p \in CProcs \ (OnlyCreate \cup OnlyList) /\ done[p] < MaxOps /\ "Delete" \in Kinds /\ i \in Known
   /\ Call(p, [NoCur EXCEPT !.op = "Delete", !.id = i, !.res = "ok"], "D_get")
   /\ snap' = snap
   /\ Log(CallSt(p, "Call", "Delete", Cl(p), "-", i, "-", "-"))
 
 CallUpdate(p, i, s) ==     \* only the owner's side ever updates (expiry / status); no client-facing path
-  /\ p \in CProcs \ (OnlyCreate \cup OnlyDelete) /\ done[p] < MaxOps /\ "Update" \in Kinds /\ i \in okc /\ meta[i].c = Cl(p)
+  /\ p \in CProcs \ (OnlyCreate \cup OnlyDelete \cup OnlyList) /\ done[p] < MaxOps /\ "Update" \in Kinds /\ i \in okc /\ meta[i].c = Cl(p)
   /\ Call(p, [NoCur EXCEPT !.op = "Update", !.id = i, !.st = s], "U_get")
   /\ snap' = snap
   /\ Log(CallSt(p, "Call", "Update", Cl(p), "-", i, s, "-"))
+
+CallList(p) ==       \* the client lists its own mappings
+  /\ p \in CProcs \ (OnlyCreate \cup OnlyDelete) /\ done[p] < MaxOps /\ "List" \in Kinds
+  /\ Call(p, [NoCur EXCEPT !.op = "List"], "G_list")
+  /\ snap' = snap
+  /\ Log(CallSt(p, "Call", "List", Cl(p), "-", 0, "-", "-"))
 
 CallLookup(q, n, sp) ==
   /\ q \in LookProcs /\ done[q] < MaxLook /\ sp \in Spell
@@ -212,6 +225,23 @@ CNx(p) ==    \* SetNX(index:<name>, id)
           /\ Return(p) /\ Log(St(p, "ClaimIndex", FALSE, "fail"))
   /\ UNCHANGED <<nextId, rec, clist, dlock, cur, tmp, fault, okc, deld, delok, inact, meta, snap, bad>> /\ U_leg
 
+CreateOk(p) == okc' = okc \cup {cur[p].id}
+
+\* CreateFaults: the other storage operations of a create may be the one that fails
+\*   Exists(index) of the handler's pre-check: reported as "taken";  Incr(next_id), SetNX(index) returning an
+\*   ERROR: the create fails and nothing is rolled back (nothing was written; the index entry, if any, is the owner's)
+\*   Get / Set of the handler's expiry update: logged and ignored, the create is acknowledged
+CFault(p) ==
+  /\ CreateFaults /\ fault > 0 /\ fault' = fault - 1
+  /\ pc[p] \in {"C_pre", "C_id", "C_nx", "C_uget", "C_uset"}
+  /\ Return(p)
+  /\ CASE pc[p] = "C_pre" -> okc' = okc /\ failc' = failc /\ Log(St(p, "ChkIndex", TRUE, "fail"))
+       [] pc[p] = "C_id" -> okc' = okc /\ failc' = failc /\ Log(St(p, "NextId", TRUE, "fail"))
+       [] pc[p] = "C_nx" -> okc' = okc /\ failc' = failc \cup {cur[p].id} /\ Log(St(p, "ClaimIndex", TRUE, "fail"))
+       [] pc[p] = "C_uget" -> CreateOk(p) /\ failc' = failc /\ Log(St(p, "UpdGet", TRUE, "ok"))
+       [] pc[p] = "C_uset" -> CreateOk(p) /\ failc' = failc /\ Log(St(p, "UpdSet", TRUE, "ok"))
+  /\ UNCHANGED <<cur, tmp, deld, delok, inact, meta, snap, bad, dev>> /\ U_store /\ U_leg
+
 CRec(p) ==   \* Set(mapping:<id>); a failure rolls the index back
   /\ pc[p] = "C_rec"
   /\ \/ /\ rec' = [rec EXCEPT ![cur[p].id] = [c |-> Cl(p), n |-> cur[p].n, k |-> cur[p].k, st |-> "active"]]
@@ -220,7 +250,6 @@ CRec(p) ==   \* Set(mapping:<id>); a failure rolls the index back
         /\ Goto(p, "C_rb_idx") /\ Log(St(p, "PutRec", TRUE, "-"))
   /\ UNCHANGED <<nextId, index, clist, dlock, cur, tmp>> /\ U_leg /\ U_ghost
 
-CreateOk(p) == okc' = okc \cup {cur[p].id}
 
 CList(p) ==  \* AppendToList(client:<c>, id); a failure rolls record and index back
   /\ pc[p] = "C_list"
@@ -435,6 +464,45 @@ USet(p) ==
   /\ UNCHANGED <<nextId, index, clist, dlock, cur, tmp, fault, okc, failc, deld, delok, meta, snap, bad>> /\ U_leg
   /\ Log(St(p, "UpdSet", FALSE, "ok"))
 
+\* ---- GetMappingsByClientID --------------------------------------------------------------------
+\* reads only, except that ids whose record is gone are dropped from the client's list
+ListNext(p, ids) ==    \* continue with the remaining ids (ascending = list order) or return
+  IF ids = {} THEN Return(p) /\ cur' = [cur EXCEPT ![p].ids = {}]
+  ELSE Goto(p, "G_rec") /\ cur' = [cur EXCEPT ![p].ids = ids, ![p].id = CHOOSE i \in ids : \A j \in ids : i <= j]
+
+GList(p) ==   \* GetList(client:<c>)
+  /\ pc[p] = "G_list"
+  /\ ListNext(p, clist[Cl(p)])
+  /\ UNCHANGED <<tmp, fault>> /\ U_store /\ U_leg /\ U_ghost
+  /\ Log(St(p, "ListGet", FALSE, IF clist[Cl(p)] = {} THEN "ok" ELSE "-"))
+
+GRec(p) ==    \* Get(mapping:<id>)
+  /\ pc[p] = "G_rec"
+  /\ LET i == cur[p].id
+         rest == cur[p].ids \ {i} IN
+     IF ~Has(rec[i]) THEN Goto(p, "G_prune") /\ cur' = cur /\ Log(St(p, "ListRec", FALSE, "-"))
+     ELSE IF "listHeals" \in Deviate /\ rec[i].st = "active" THEN Goto(p, "G_heal") /\ cur' = cur /\ Log(St(p, "ListRec", FALSE, "-"))
+     ELSE ListNext(p, rest) /\ Log(St(p, "ListRec", FALSE, IF rest = {} THEN "ok" ELSE "-"))
+  /\ UNCHANGED <<tmp, fault>> /\ U_store /\ U_leg /\ U_ghost
+
+GPrune(p) ==  \* RemoveFromList(client:<c>, id) of a dangling id
+  /\ pc[p] = "G_prune"
+  /\ clist' = [clist EXCEPT ![Cl(p)] = @ \ {cur[p].id}]
+  /\ ListNext(p, cur[p].ids \ {cur[p].id})
+  /\ UNCHANGED <<nextId, index, rec, dlock, tmp, fault>> /\ U_leg /\ U_ghost
+  /\ Log(St(p, "ListPrune", FALSE, IF cur[p].ids \ {cur[p].id} = {} THEN "ok" ELSE "-"))
+
+\* deviation listWrites: SetNX(index:<name>, id) for a listed active record - a listing must not claim names
+GHeal(p) ==
+  /\ pc[p] = "G_heal"
+  /\ LET k == rec[cur[p].id].k IN
+     IF Has(rec[cur[p].id]) /\ index[k] = 0
+     THEN index' = [index EXCEPT ![k] = cur[p].id] /\ dev' = dev \cup {"listWrites"}
+     ELSE index' = index /\ dev' = dev
+  /\ ListNext(p, cur[p].ids \ {cur[p].id})
+  /\ UNCHANGED <<nextId, rec, clist, dlock, tmp, fault, okc, failc, deld, delok, inact, meta, snap, bad>> /\ U_leg
+  /\ Log(St(p, "ListHeal", FALSE, IF cur[p].ids \ {cur[p].id} = {} THEN "ok" ELSE "-"))
+
 \* ---- lookupMapping ----------------------------------------------------------------------------
 \* fallbacks 2 and 3 use no storage operation of the repository: they happen in the same step as
 \* the repository miss that leads to them
@@ -536,6 +604,7 @@ LegDelete(n, here) ==
 Next == \/ \E p \in CProcs : \/ \E n \in Names, sp \in Spell : CallCreate(p, n, sp)
                              \/ \E i \in Ids : CallDelete(p, i)
                              \/ \E i \in Ids, s \in {"inactive", "expired"} : CallUpdate(p, i, s)
+                             \/ CallList(p) \/ GList(p) \/ GRec(p) \/ GPrune(p) \/ GHeal(p) \/ CFault(p)
                              \/ CPre(p) \/ CId(p) \/ CNx(p) \/ CRec(p) \/ CList(p) \/ CRbRec(p) \/ CRbIdx(p)
                              \/ CUGet(p) \/ CUSet(p)
                              \/ DGet(p) \/ DIdx(p) \/ DRec(p) \/ DList(p)
@@ -574,6 +643,8 @@ OnlyHolderUnlocks == "foreignUnlock" \notin dev
 
 \* (3c) a lookup leaves the store unchanged
 LookupPure == "lookupWrites" \notin dev
+\* (3d) a listing claims nothing
+ListPure == "listWrites" \notin dev
 
 \* (4) quiescent store: no index entry without its record (name unclaimable for ever), every live
 \*     mapping is reachable through the index and listed for its owner
